@@ -1,6 +1,7 @@
 package props
 
 import (
+	"sort"
 	"strings"
 	"testing"
 
@@ -155,6 +156,34 @@ func identByte(b byte) bool {
 	return b == '_' || b == '-' || b >= '0' && b <= '9' || b >= 'a' && b <= 'z' || b >= 'A' && b <= 'Z' || b >= 0x80
 }
 
+// declaredItems lists every attribute name and block type the parser recovered from the file.
+func declaredItems(w *world.World, cl Call) string {
+	pc := w.Reader.Ctx(w.M.Paths[cl.Path].Path)
+	if pc == nil || pc.Files[cl.File] == nil {
+		return ""
+	}
+	body, ok := pc.Files[cl.File].Body.(*hclsyntax.Body)
+	if !ok {
+		return ""
+	}
+	var out []string
+	var walk func(b *hclsyntax.Body, prefix string)
+	walk = func(b *hclsyntax.Body, prefix string) {
+		for n := range b.Attributes {
+			out = append(out, prefix+"/"+n)
+		}
+		for _, blk := range b.Blocks {
+			out = append(out, prefix+"/"+blk.Type+"{}")
+			if blk.Body != nil {
+				walk(blk.Body, prefix+"/"+blk.Type)
+			}
+		}
+	}
+	walk(body, "")
+	sort.Strings(out)
+	return strings.Join(out, " ")
+}
+
 func (cc *c06Checker) probeLeftOut(cl Call, text string, cands lang.Candidates) {
 	// typing next to an existing identifier would change that identifier (and so
 	// what is declared); only probe where the new character stands alone
@@ -182,6 +211,11 @@ func (cc *c06Checker) probeLeftOut(cl Call, text string, cands lang.Candidates) 
 		}
 		w2, pi := SafeBuild(func() *world.World { return world.Build(wm) })
 		if pi != nil {
+			continue
+		}
+		// the typed character must not change what the parser recovers as declared
+		// (an unfinished item further down may swallow its neighbours once the line above changes)
+		if declaredItems(cc.w, cl) != declaredItems(w2, cl) {
 			continue
 		}
 		c2 := cl
